@@ -19,82 +19,158 @@ def concat(e):
     return [nt(e)]
 
 
+def _join_arg(ret):
+    """(J, wrapper ok) for a value of the form '(' + ', '.join(J) + ')'"""
+    if ret is None:
+        return None, False
+    js = [n for n in ast.walk(ret) if isinstance(n, ast.Call) and
+          isinstance(n.func, ast.Attribute) and n.func.attr == 'join' and
+          isinstance(n.func.value, ast.Constant) and n.func.value.value == ', '
+          and len(n.args) == 1 and not n.keywords]
+    if len(js) != 1:
+        return None, False
+    J = js[0].args[0]
+    j = nt(js[0])
+    rt = nt(ret)
+    ok = rt in ("'(%%s)' %% %s" % j, "'(%%s)' %% (%s,)" % j, "'({})'.format(%s)" % j,
+                "f'({%s})'" % j) or concat(ret) == ["'('", j, "')'"]
+    return J, ok
+
+
 def render_spec(rep, mod, rule):
+    """getSignatureString: the items handed to ', '.join(), whichever way they
+    are produced (appends to a list, `sig[-1] +=`, a comprehension for the
+    positionals, a local generator), decided per path"""
+    from .sem import value_cases
     g = find_def(mod, 'Method.getSignatureString')
+    raw = find_def(mod, 'Method.getSignatureString', raw=True)
     site = 'Method.getSignatureString'
     SRC = 'self.positional'
     E = 'EACH(%s)' % SRC
     probs = []
     kinds = set()
-    for ps in normal(summaries(g)):
-        ret = ps.ret
-        L = '[]'
-        rt = nt(ret)
-        j = "', '.join(%s)" % L
-        okret = rt in ("'(%%s)' %% %s" % j, "'(%%s)' %% (%s,)" % j, "'({})'.format(%s)" % j) \
-            or (ret is not None and concat(ret) == ["'('", j, "')'"])
-        if not okret:
-            probs.append('returns `%s`' % rt[:60])
-        its = iterated(ps)
-        if any(polarity_text(i) != (SRC, 'fwd') for i in its):
-            probs.append('walks %s' % its)
+    nested = {st.name: st for st in raw.body if isinstance(st, FUNC)}
+    outer = normal(summaries(g))
+    emitters = []          # (summaries, container text or None for yields, comp or None)
+    for ps in outer:
+        J, okw = _join_arg(ps.ret)
+        if J is None or not okw:
+            probs.append('returns `%s`' % nt(ps.ret)[:70])
             continue
-        apps = [e for e in ps.events if e.kind == 'call' and
-                isinstance(e.r.func, ast.Attribute) and e.r.func.attr == 'append'
-                and nt(e.r.func.value) == L and len(e.r.args) == 1]
-        others = [e for e in ps.events if e.kind == 'call' and
-                  isinstance(e.r.func, ast.Attribute) and
-                  e.r.func.attr in ('insert', 'extend', 'pop', 'remove', 'reverse', 'sort')]
-        if others:
-            probs.append('edits the list with %s' % nt(others[0].r)[:40])
-        augs = [e for e in ps.events if e.kind == 'aug' and nt(e.r) == '%s[-1]' % L]
-        pos_apps = []
-        tail = list(apps)
-        if its:
-            first = [e for e in apps if E in nt(e.r.args[0])]
-            if len(first) != 1:
-                probs.append('a positional is appended %d times' % len(first))
+        if isinstance(J, ast.Call) and isinstance(J.func, ast.Name) and \
+                J.func.id in nested and not J.args and not J.keywords:
+            from ..pyfront import inlined
+            if [e for e in ps.events if e.kind == 'call' and
+                    not (nt(e.r) == nt(J) or (isinstance(e.r.func, ast.Attribute)
+                                               and e.r.func.attr == 'join'))]:
+                probs.append('other effects next to the generator')
+            emitters.append((normal(summaries(inlined(nested[J.func.id]))), None, None))
+        else:
+            comp = J if isinstance(J, (ast.ListComp, ast.GeneratorExp)) else None
+            emitters.append(([ps], nt(J), comp))
+    for ss_, L, comp in emitters:
+        for ps in ss_:
+            its = iterated(ps)
+            if any(polarity_text(i) != (SRC, 'fwd') for i in its):
+                probs.append('walks %s' % its)
                 continue
-            entry = concat(first[0].r.args[0])
-            for a in augs:
-                if ps.index(a) < ps.index(first[0]):
-                    probs.append('sig[-1] edited before the positional is appended')
-                if not (isinstance(a.val, ast.BinOp) and isinstance(a.val.op, ast.Add)):
-                    probs.append('sig[-1] edited with `%s`' % nt(a.val)[:40])
+            if L is None:
+                emits = [e for e in ps.events if e.kind == 'yield']
+                if [e for e in ps.events if e.kind == 'yieldfrom']:
+                    probs.append('delegating yield')
+                augs = []
+                others = []
+            else:
+                emits = [e for e in ps.events if e.kind == 'call' and
+                         isinstance(e.r.func, ast.Attribute) and e.r.func.attr == 'append'
+                         and nt(e.r.func.value) == L and len(e.r.args) == 1]
+                others = [e for e in ps.events if e.kind == 'call' and
+                          isinstance(e.r.func, ast.Attribute) and
+                          e.r.func.attr in ('insert', 'extend', 'pop', 'remove', 'reverse',
+                                            'sort')]
+                augs = [e for e in ps.events if e.kind == 'aug' and nt(e.r) == '%s[-1]' % L]
+            if others:
+                probs.append('edits the list with %s' % nt(others[0].r)[:40])
+
+            def item(e):
+                return e.r if e.kind == 'yield' else e.r.args[0]
+            tail = list(emits)
+            pos_cases = []            # (optional?, parts)
+            if comp is not None:
+                # the positionals come from a comprehension over self.positional
+                gs = comp.generators
+                if len(gs) != 1 or gs[0].ifs or polarity_text(nt(gs[0].iter)) != (SRC, 'fwd') \
+                        or not isinstance(gs[0].target, ast.Name):
+                    probs.append('positionals rendered by `%s`' % nt(comp)[:70])
                     continue
-                entry = entry + concat(a.val.right)
-                nxt = [e for e in apps if ps.index(first[0]) < ps.index(e) < ps.index(a)]
-                if nxt:
-                    probs.append('sig[-1] edited after another entry was appended')
-            opt = fact_cmp(ps, E, 'self.optional.keys()', 'in')
-            if opt is None:
-                opt = fact_cmp(ps, E, 'self.optional', 'in')
-            if opt is None:
-                probs.append('optionality of a positional is not tested')
+                v = gs[0].target.id
+                for conds, val in value_cases(comp.elt):
+                    m = [t for c, t in conds if c in ('%s in self.optional.keys()' % v,
+                                                      '%s in self.optional' % v)]
+                    other = [c for c, t in conds if c not in (
+                        '%s in self.optional.keys()' % v, '%s in self.optional' % v)]
+                    if other or len(m) > 1:
+                        probs.append('positional rendering depends on `%s`'
+                                     % (other or conds)[0][0][:50])
+                        continue
+                    parts = [x.replace(v, E) if x == v or ('[%s]' % v) in x else x
+                             for x in concat(val)]
+                    pos_cases.append((m[0] if m else None, parts))
+                if any(E in nt(item(e)) for e in emits):
+                    probs.append('a positional is rendered twice')
+            elif its:
+                first = [e for e in emits if E in nt(item(e))]
+                if len(first) != 1:
+                    probs.append('a positional is rendered %d times' % len(first))
+                    continue
+                entry = concat(item(first[0]))
+                for a in augs:
+                    if ps.index(a) < ps.index(first[0]):
+                        probs.append('sig[-1] edited before the positional is appended')
+                    if not (isinstance(a.val, ast.BinOp) and isinstance(a.val.op, ast.Add)):
+                        probs.append('sig[-1] edited with `%s`' % nt(a.val)[:40])
+                        continue
+                    entry = entry + concat(a.val.right)
+                    nxt = [e for e in emits
+                           if ps.index(first[0]) < ps.index(e) < ps.index(a)]
+                    if nxt:
+                        probs.append('sig[-1] edited after another entry was appended')
+                opt = fact_cmp(ps, E, 'self.optional.keys()', 'in')
+                if opt is None:
+                    opt = fact_cmp(ps, E, 'self.optional', 'in')
+                if opt is None:
+                    probs.append('optionality of a positional is not tested')
+                    continue
+                pos_cases.append((opt, entry))
+                tail = [e for e in emits if e is not first[0]]
+                if any(ps.index(e) < ps.index(first[0]) for e in tail):
+                    probs.append('*args/**kw rendered before the positionals')
+            elif augs:
+                probs.append('sig[-1] edited without a positional')
+            for opt, entry in pos_cases:
+                if opt is None:
+                    probs.append('optionality of a positional is not tested')
+                    continue
+                want = [E, "'='", 'repr(self.optional[%s])' % E] if opt else [E]
+                kinds.add('opt' if opt else 'req')
+                if entry != want:
+                    probs.append('%s positional rendered as %s' % (
+                        'optional' if opt else 'required', ' + '.join(entry)[:80]))
+            va, kw = ps.fact('self.varargs'), ps.fact('self.kwargs')
+            if va is None or kw is None:
+                probs.append('varargs/kwargs presence not tested')
                 continue
-            want = [E, "'='", 'repr(self.optional[%s])' % E] if opt else [E]
-            kinds.add('opt' if opt else 'req')
-            if entry != want:
-                probs.append('%s positional rendered as %s' % (
-                    'optional' if opt else 'required', ' + '.join(entry)[:80]))
-            tail = [e for e in apps if e is not first[0]]
-            if any(ps.index(e) < ps.index(first[0]) for e in tail):
-                probs.append('*args/**kw appended before the positionals')
-        elif augs:
-            probs.append('sig[-1] edited without a positional')
-        va, kw = ps.fact('self.varargs'), ps.fact('self.kwargs')
-        if va is None or kw is None:
-            probs.append('varargs/kwargs presence not tested')
-            continue
-        want = (["'*' + self.varargs"] if va else []) + (["'**' + self.kwargs"] if kw else [])
-        kinds.add(('va' if va else 'nova') + ('kw' if kw else 'nokw'))
-        if [nt(e.r.args[0]) for e in tail] != want:
-            probs.append('after the positionals appends %s (required %s)'
-                         % ([nt(e.r.args[0])[:30] for e in tail], want))
-    for lp in walk_local(g):
-        if isinstance(lp, ast.For) and \
-                [n for n in walk_local(lp) if isinstance(n, (ast.Break, ast.Return))]:
-            probs.append('early exit from the walk')
+            want = (["'*' + self.varargs"] if va else []) + \
+                (["'**' + self.kwargs"] if kw else [])
+            kinds.add(('va' if va else 'nova') + ('kw' if kw else 'nokw'))
+            if [nt(item(e)) for e in tail] != want:
+                probs.append('after the positionals renders %s (required %s)'
+                             % ([nt(item(e))[:30] for e in tail], want))
+    for fn in [g] + [nested[k] for k in nested]:
+        for lp in walk_local(fn):
+            if isinstance(lp, ast.For) and \
+                    [n for n in walk_local(lp) if isinstance(n, (ast.Break, ast.Return))]:
+                probs.append('early exit from the walk')
     if not probs and not {'opt', 'req', 'vakw', 'novanokw', 'vanokw', 'novakw'} <= kinds:
         probs.append('path kinds %s' % sorted(kinds))
     rep.check(rule, site, not probs,
@@ -139,16 +215,27 @@ def field_rewrites(rep, repo, rule, skip):
         for fn in ast.walk(m):
             if not isinstance(fn, FUNC) or fn.name == skip:
                 continue
-            tg = [n for n in walk_local(fn) if isinstance(n, ast.Assign) and
-                  isinstance(n.targets[0], ast.Attribute) and
-                  n.targets[0].attr in ('positional', 'required') and
-                  isinstance(n.targets[0].value, ast.Name) and
-                  n.targets[0].value.id != 'self']
-            if not tg:
+            # candidates: the function mentions a signature field other than
+            # through `self`; confirmed below on its path summaries
+            if fn.name in ('__init__',) or not any(
+                    (isinstance(n, ast.Attribute) and n.attr in ('positional', 'required')
+                     and not (isinstance(n.value, ast.Name) and n.value.id == 'self'))
+                    or (isinstance(n, ast.Constant) and n.value in ('positional', 'required'))
+                    for n in walk_local(fn)):
                 continue
+            from ..pyfront import inlined
+            try:
+                fsum = normal(summaries(inlined(fn)))
+            except AnalysisError:
+                continue
+            wr = [e for ps in fsum for e in ps.events if e.kind == 'store' and
+                  isinstance(e.r, ast.Attribute) and e.r.attr in ('positional', 'required')
+                  and nt(e.r.value) != 'self']
+            if not wr:
+                continue
+            tg = [wr[0].node.ast]
             sites += 1
             site = '%s:%s' % (rel, qualname(fn))
-            from ..pyfront import inlined
             probs = []
             detail = None
             for ps in normal(summaries(inlined(fn))):
@@ -202,12 +289,17 @@ def abc_method(rep, repo, rule):
             continue
         n += 1
         c = ff[0].r
-        kw = {k.arg: nt(k.value) for k in c.keywords}
-        if kw.get('imlevel', '0') != '0' or len(c.args) > 2:
+        params = ['func', 'interface', 'imlevel', 'name']
+        bound = dict(zip(params, [nt(a) for a in c.args]))
+        bound.update({k.arg: nt(k.value) for k in c.keywords})
+        kw = bound
+        if bound.get('imlevel', '0') != '0' or len(c.args) > 4 or \
+                any(isinstance(a, ast.Starred) for a in c.args):
             probs.append('describes the function with imlevel=%s (drops '
                          'co_varnames[0] even when it is not a positional self)'
-                         % kw.get('imlevel', '?'))
-        if [nt(a) for a in c.args[:2]] != ['function', 'self'] or kw.get('name') != 'name':
+                         % bound.get('imlevel', '?'))
+        if (bound.get('func'), bound.get('interface'), bound.get('name')) != \
+                ('function', 'self', 'name'):
             probs.append('described as `%s`' % nt(c)[:70])
         D = nt(c)
         st = {e.r.attr: nt(e.val) for e in ps.stores() if isinstance(e.r, ast.Attribute)
